@@ -17,7 +17,7 @@ def runner_tasks(tier):
     return [{"module": "c14", "task": "table_columns", "kind": "eval", "clause": "activation.dat columns, both tables"},
             {"module": "c14", "task": "grid", "kind": "bounded", "clause": "all 513 rows x parameter grid vs exact chain solutions"},
             {"module": "c14", "task": "element_sum", "kind": "bounded", "clause": "natural element = abundance-weighted isotope sum"},
-            {"module": "stateful", "task": "C14", "name": "stateful", "kind": "bounded", "clause": "re-used environment / sample gives what a fresh one gives"},
+            {"module": "stateful", "task": "C14", "name": "stateful", "kind": "bounded", "clause": "re-used environment / sample gives what a fresh one gives; rest times as the caller's numpy vector over several calls"},
             {"module": "c09", "task": "steps", "name": "first-touch steps", "kind": "eval", "arg": {"groups": ["neutron_activation"]}, "clause": "every first touch of the activation data (incl. explicit init first) serves the canonical rows", "timeout": 1500},
             {"module": "c10", "task": "steps", "name": "private-table steps", "kind": "eval", "arg": {"modules": ["activation"]}, "clause": "activation.init on a private table: same rows, public untouched", "timeout": 1500}]
 
